@@ -69,7 +69,11 @@ func main() {
 		conf.Check(d, fset, files, info)
 		for i, f := range files {
 			n := 0
+			fn := "?"
 			ast.Inspect(f, func(node ast.Node) bool {
+				if fd, ok := node.(*ast.FuncDecl); ok {
+					fn = fd.Name.Name
+				}
 				rs, ok := node.(*ast.RangeStmt)
 				if !ok {
 					return true
@@ -82,7 +86,7 @@ func main() {
 					return true
 				}
 				pos := fset.Position(rs.Pos())
-				site := fmt.Sprintf("%s:%d", filepath.ToSlash(names[i]), pos.Line)
+				site := fmt.Sprintf("%s:%d:%s", filepath.ToSlash(names[i]), pos.Line, fn)
 				rs.X = &ast.CallExpr{
 					Fun:  &ast.SelectorExpr{X: ast.NewIdent("verifrt"), Sel: ast.NewIdent("Map")},
 					Args: []ast.Expr{rs.X, &ast.BasicLit{Kind: token.STRING, Value: strconv.Quote(site)}},
